@@ -16,8 +16,8 @@ Model of the code that exists in `mir.c`:
 All functions take the `insn_descs` table as a parameter; `MirVerif.Gen.C15.insnDescs` (regenerated
 from /repo on every run) is what the theorems instantiate it with.  Enum values come from the
 generated file too.  A verdict is `ok`, `err e` (the `MIR_error_type_t` value handed to the error
-function) or `crash` (the C code dereferences NULL, indexes outside `op_modes[5]`, or a `mir_assert`
-fails in an assert-enabled build).
+function) or `crash` (the C code indexes outside `op_modes[5]`; reachable only for tables
+whose rows are shorter than their opcode needs).
 -/
 namespace MirVerif.Check
 open MirVerif.Gen.C15
@@ -190,7 +190,7 @@ structure ImplPos where
   out : Bool
   /-- `MIR_call_code_p (code)`: block-typed memory is tolerated -/
   callp : Bool
-  /-- position is one of the `va_list as undef type mem` special cases -/
+  /-- position is one of the va_list positions: undef-typed memory is tolerated there -/
   vaSpecial : Bool
   deriving DecidableEq, Repr, Inhabited
 
@@ -198,11 +198,11 @@ structure ImplPos where
 def decodeMode (m : Nat) : Nat × Bool :=
   if Nat.land m OUT_FLAG == 0 then (m, false) else (Nat.xor m OUT_FLAG, true)
 
-/-- the `(code, i)` pairs of the va_list special case exactly as written in `MIR_finish_func`
-(note `MIR_VA_END && i == 1`, a position `va_end` does not have) -/
+/-- the `(code, i)` pairs where `MIR_finish_func` tolerates undef-typed memory (va_list operands);
+the same set is written twice in the C code (type check, mode check) -/
 def vaSpecialAt (code i : Nat) : Bool :=
-  (code == C_VA_START && i == 0) || ((code == C_VA_ARG || code == C_VA_BLOCK_ARG) && i == 1)
-    || (code == C_VA_END && i == 1)
+  ((code == C_VA_START || code == C_VA_END) && i == 0)
+    || ((code == C_VA_ARG || code == C_VA_BLOCK_ARG) && i == 1)
 
 /-- `MIR_insn_op_mode` for the opcodes that take the `default:` branch or the `MIR_ADDR*` branch.
 `none` = index outside `op_modes[5]` (undefined behaviour in C). -/
@@ -274,11 +274,11 @@ def regSelf : RegRef → Verdict
   | .decl _ => .ok
 
 /-- the checks made on the operand itself inside `switch (insn->ops[i].mode)` -/
-def selfErr (callp : Bool) (o : OpA) : Verdict :=
+def selfErr (callp vaSpecial : Bool) (o : OpA) : Verdict :=
   match o with
   | .reg r => regSelf r
   | .mem ty dispNeg rv =>
-    if wrongType ty && (!allBlk ty || !callp) then .err E_wrong_type
+    if wrongType ty && (!allBlk ty || !callp) && !(ty == .undef && vaSpecial) then .err E_wrong_type
     else if allBlk ty && dispNeg then .err E_wrong_type
     else rv.v
   | _ => .ok
@@ -313,7 +313,8 @@ def modeCheck (ip : ImplPos) (o : OpA) : Verdict :=
   seq v (if ip.out && !canBeOut o then .err E_out_op else .ok)
 
 /-- one operand at a position described by `ip` -/
-def finishOperandA (ip : ImplPos) (o : OpA) : Verdict := seq (selfErr ip.callp o) (modeCheck ip o)
+def finishOperandA (ip : ImplPos) (o : OpA) : Verdict :=
+  seq (selfErr ip.callp ip.vaSpecial o) (modeCheck ip o)
 
 def finishOperandAt (ip : ImplPos) (o : OpS) : Verdict := finishOperandA ip o.abs
 
@@ -340,16 +341,21 @@ def callableRef : RefS → Bool
   | .func | .import_ | .export_ | .forward_ => true
   | _ => false
 
-/-- what `MIR_finish_func` does with operand `i` of a call-like insn whose prototype is `pr`:
-`none` = skipped (`continue`), otherwise the position descriptor or a crash. -/
-def callPos (asserts : Bool) (descs : Descs) (pr : Proto) (code i : Nat) (o : OpS) :
-    Option (Option ImplPos) :=
-  if i == 0 then none
+/-- what `MIR_finish_func` does with operand `i` of a call-like insn -/
+inductive CallK where
+  | skip                  -- `continue`
+  | fail (v : Verdict)    -- error raised before any operand check
+  | oob
+  | pos (ip : ImplPos)
+  deriving Repr, Inhabited
+
+/-- operand `i` of a call / inline / jcall whose prototype is `pr` -/
+def callPos (pr : Proto) (i : Nat) (o : OpS) : CallK :=
+  if i == 0 then .skip
   else if i == 1 && o.mode == OP_REF then
     (match o with
-     | .ref k => if asserts && !callableRef k then some none else none
-     | _ => none)
-  else if code == C_JCALL then some (rowPos descs code i)   -- no `case MIR_JCALL:` in MIR_insn_op_mode
+     | .ref k => if callableRef k then .skip else .fail (.err E_call_op)
+     | _ => .skip)
   else
     let nres := pr.res.length
     let out := 2 ≤ i && i < nres + 2
@@ -358,7 +364,7 @@ def callPos (asserts : Bool) (descs : Descs) (pr : Proto) (code i : Nat) (o : Op
       else if i == 1 then OP_INT
       else if i < nres + 2 then type2mode (pr.res.getD (i - 2) .i64)
       else type2mode ((pr.args.getD (i - 2 - nres) (.i64, 0)).1)
-    some (some ⟨.fixed m, out, true, false⟩)
+    .pos ⟨.fixed m, out, true, false⟩
 
 /-- the kinds of positional check `MIR_new_insn_arr` makes on single operands -/
 inductive NewK where
@@ -369,6 +375,7 @@ inductive NewK where
 def newKind (code i : Nat) : NewK :=
   if code == C_VA_ARG && i == 2 then .mustMem
   else if code == C_PRSET && i == 1 then .mustInt
+  else if code == C_PRSET && i == 0 then .mustRegMem
   else if (code == C_PRBEQ || code == C_PRBNE) && i == 2 then .mustInt
   else if (code == C_PRBEQ || code == C_PRBNE) && i == 1 then .mustRegMem
   else .none
@@ -393,7 +400,9 @@ inductive FinK where
 def fixedPos (descs : Descs) (code i : Nat) : FinK :=
   if code == C_VA_ARG && i == 2 then .skip
   else match rowPos descs code i with
-    | some ip => .pos ip
+    | some ip =>
+      -- `if (MIR_addr_code_p (code) && i == 1) expected_mode = MIR_OP_REG;`
+      .pos (if isAddr code && i == 1 then { ip with exp := .fixed OP_REG } else ip)
     | none => .oob
 
 def finKCheck (k : FinK) (o : OpA) : Verdict :=
@@ -428,10 +437,11 @@ def finishPos (asserts : Bool) (descs : Descs) (protos : List Proto) (fn : Func)
     match protoOf protos insn.ops with
     | none => .crash             -- cannot happen: MIR_new_insn_arr checked the first operand
     | some pr =>
-      match callPos asserts descs pr code i o with
-      | none => .ok
-      | some none => .crash
-      | some (some ip) => finishOperandAt ip o
+      match callPos pr i o with
+      | .skip => .ok
+      | .fail v => v
+      | .oob => .crash
+      | .pos ip => finishOperandAt ip o
   else if code == C_SWITCH then finishOperandAt (switchPos i) o
   else if code == C_RET then finishOperandAt (retPos (fn.res.getD i .i64)) o
   else finishPosFixed descs code i o
@@ -503,10 +513,6 @@ def overflowProducer : List Insn → Option Insn
   | p :: ps =>
     if p.code == C_MOV && ((p.ops.getD 1 .int).s.mode == OP_REG) then overflowProducer ps else some p
 
-/-- the verdict for `ret` whose operand count differs from the number of results: the C code sets
-`curr_func = NULL` and then evaluates `curr_func->nres` for the message — a NULL dereference -/
-def retCountMismatch : Verdict := .crash
-
 /-- insn-level rules; `prevs` = earlier insns, nearest first; `retSeen`/`jretSeen` already include
 this insn -/
 def insnLevel (fn : Func) (prevs : List Insn) (retSeen jretSeen : Bool) (insn : Insn) : Verdict :=
@@ -515,7 +521,7 @@ def insnLevel (fn : Func) (prevs : List Insn) (retSeen jretSeen : Bool) (insn : 
   else if !fn.vararg && code == C_VA_START then .err E_vararg_func
   else if code == C_JRET && fn.res.length != 0 then .err E_vararg_func
   else if (code == C_JRET && retSeen) || (code == C_RET && jretSeen) then .err E_vararg_func
-  else if code == C_RET && insn.ops.length != fn.res.length then retCountMismatch
+  else if code == C_RET && insn.ops.length != fn.res.length then .err E_vararg_func
   else if isCall code then .ok
   else if isOverflowBranch code then
     match overflowProducer prevs with
